@@ -114,6 +114,17 @@ func (in *Interp) newJSONBlob(n *JNode) *Blob {
 	b := &Blob{ID: in.opq, Node: n}
 	if bs, ok := in.renderJSON(n); ok {
 		b.Str = in.ts.Str(string(bs))
+		if in.params["blob_axioms"] != "" && len(in.blobs) < 400 {
+			// concrete texts take part in the "equal iff structurally equal" axioms too, otherwise a symbolic blob could be
+			// made equal to a concrete text of a different shape
+			if in.blobOfStr == nil {
+				in.blobOfStr = map[*Term]*Blob{}
+			}
+			if _, seen := in.blobOfStr[b.Str]; !seen {
+				in.blobOfStr[b.Str] = b
+				in.blobs = append(in.blobs, b)
+			}
+		}
 	}
 	return b
 }
